@@ -9,7 +9,8 @@
    keys to equal integers ([hkey] = None: hash() raises TypeError). *)
 From Coq Require Import QArith Qabs ZArith List Bool String Permutation.
 Import ListNotations.
-From CR Require Import Model.EqHash Gen.Tables_C12 Model.EqHashSpecs Proofs.EqHash Proofs.EqHashH.
+From CR Require Import Model.EqHash Model.EqHashTypes Gen.Tables_C12 Model.EqHashSpecs.
+From CR Require Import Proofs.EqHash Proofs.EqHashH Proofs.EqHashT.
 Open Scope Q_scope.
 
 (* ---------------------------------------------------------------- reflexive, symmetric (every table, every value) *)
@@ -78,6 +79,28 @@ Theorem C12_eq_hash : forall x y kx ky,
   eqv T_C12 x y = true -> hkey T_C12 x = Some kx -> hkey T_C12 y = Some ky -> peq kx ky = true.
 Proof. exact (eq_hash_consistent T_C12 C12_table_hash_coarser). Qed.
 
+(* ---------------------------------------------------------------- hash() does not raise *)
+(* side conditions: every class / constructor parameter of the generated table A_K has a generated type
+   (from the constructors' type annotations; None is an alternative iff the default instance holds None), and the
+   hash preparation of every attribute accepts every value of the attribute's type *)
+Theorem C12_table_types_cover :
+  forallb (fun ca => forallb (fun a => match attr_ty types_C12 (fst ca) a with Some _ => true | None => false end)
+                             (snd ca) &&
+                     match assoc (fst ca) types_C12 with Some _ => true | None => false end) attrs_C12 = true.
+Proof. vm_compute. reflexivity. Qed.
+
+Theorem C12_table_types_hashable : types_hashable T_C12 types_C12 = true.
+Proof. vm_compute. reflexivity. Qed.
+
+(* an object all of whose attributes hold, recursively, values of their declared types (optional ones possibly
+   None) has a hash: hash() returns for everything the public constructors accept as documented *)
+Theorem C12_hash_total : forall c fs,
+  has_ty types_C12 (VObj c fs) (TY [AObj c]) = true -> exists k, hkey T_C12 (VObj c fs) = Some k.
+Proof. exact (hash_total_obj T_C12 types_C12 C12_table_types_hashable). Qed.
+
+Theorem C12_hash_total_nested : forall v t, has_ty types_C12 v t = true -> exists u, hv T_C12 v = Some u.
+Proof. exact (hash_total T_C12 types_C12 C12_table_types_hashable). Qed.
+
 (* ---------------------------------------------------------------- non-vacuity *)
 Definition rect (cx : Q) : value :=
   VObj "Rectangle" [("length", VNum 4); ("width", VNum 2); ("center", VArr [2%Z] [cx; 1]); ("orientation", VNum 0)].
@@ -100,6 +123,7 @@ Example C12_nonvacuous :
   eqv T_C12 (obst [VInt 0; VInt 8]) (obst [VInt 8; VInt 0]) = true /\
   hash_eq T_C12 (obst [VInt 0; VInt 8]) (obst [VInt 8; VInt 0]) = Some true /\
   eqv T_C12 (obst [VInt 0; VInt 8]) (obst [VInt 0; VInt 16]) = false /\
+  has_ty types_C12 (obst [VInt 0; VInt 8]) (TY [AObj "StaticObstacle"]) = true /\
   In ("Rectangle"%string, ["length"; "width"; "center"; "orientation"]%string) attrs_C12.
 Proof.
   repeat split; try (vm_compute; reflexivity).
@@ -121,4 +145,8 @@ Print Assumptions C12_round10_close.
 Print Assumptions C12_eq_same_family.
 Print Assumptions C12_table_hash_coarser.
 Print Assumptions C12_eq_hash.
+Print Assumptions C12_table_types_cover.
+Print Assumptions C12_table_types_hashable.
+Print Assumptions C12_hash_total.
+Print Assumptions C12_hash_total_nested.
 Print Assumptions C12_nonvacuous.
